@@ -9,13 +9,13 @@ VERIF = os.path.dirname(os.path.dirname(os.path.abspath(__file__)))
 TEXT = {
     "C01": ("Theorems over every arithmetic satisfying the rounding laws, every unit table and unit pair: result unit, same-unit identity, equiv_amount = convert amount, and an explicit rational error bound on the magnitude; the same bound is the run-time oracle evaluated with exact rationals on implementation outputs for every ordered unit pair of every type in both back-ends.",
             "§4 C01", "full"),
-    "C02": ("Theorems: same-unit reduction, agreement with the exact order outside the one-conversion margin, eq <-> partial_cmp = Equal, operand-order symmetry; oracle evaluated on both operand orders for equal-by-construction and neighbouring magnitudes.",
+    "C02": ("Theorems: same-unit reduction, agreement with the exact order outside the one-conversion margin, eq <-> partial_cmp = Equal, operand-order symmetry; oracle evaluated on both operand orders for equal-by-construction and neighbouring magnitudes. The comparison oracles are proved never to reject the model's own output (OracleSoundC02).",
             "§4 C02", "full"),
     "C03": ("Theorems: result unit, same-unit exactness (literally the amount type's + - /), explicit error bounds for mixed units; oracle with exact rationals over all ordered unit pairs.",
             "§4 C03", "full"),
-    "C04": ("Theorems: explicit error bounds on both branches (natural unit / fitted unit) of the generated Mul/Div bodies and on the round trips; generated impl list = model's implsOf of the declarations; oracle over all unit pairs of all derived operator instances, four owned/borrowed forms.",
+    "C04": ("Theorems: explicit error bounds on both branches (natural unit / fitted unit) of the generated Mul/Div bodies and on the round trips; generated impl list = model's implsOf of the declarations; oracle over all unit pairs of all derived operator instances, four owned/borrowed forms. Round trips (x*y)/y and (x/y)*y: mul_then_div_mag / div_then_mul_mag, executed as two-step chains on the implementation's own intermediate with the theorems' conclusion as oracle; the table hypotheses are discharged for every macro-generated table (Bridge2).",
             "§4 C04", "full"),
-    "C05": ("Theorems characterising the unit chosen by unit_from_scale/_fit (membership, natural unit, greatest eligible scale <= magnitude, fallback to the smallest), totality of _fit on well-formed tables; oracle evaluates the same characterisation on implementation results.",
+    "C05": ("Theorems characterising the unit chosen by unit_from_scale/_fit (membership, natural unit, greatest eligible scale <= magnitude, fallback to the smallest), totality of _fit on well-formed tables; oracle evaluates the same characterisation on implementation results. Bridge theorems discharge the table hypotheses (reference unit among the units, sortedness of the eligible units, reference unit first among scale-one units) for EVERY table the macro generates and, by kernel evaluation, for the whole catalogue.",
             "§4 C05", "full"),
     "C06": ("Theorem: the impl table generated from any declaration list accepts exactly the dimensionally meaningful operator applications (sound and complete w.r.t. an independent specification relation) and dimension vectors are consistent on the generated catalogue; tie: rustc verdict for all 1350 catalogue expressions compared with the model's prediction.",
             "§4 C06", "partial: rustc's trait selection is modelled"),
@@ -31,9 +31,9 @@ TEXT = {
             "§4 C11", "partial: syn / rustc are modelled"),
     "C12": ("One theorem per defect class: every raw definition having the defect is rejected by the model of the macro at the offending site; derived definitions need reference units (HasRefUnit bounds); tie: cargo check verdict and primary span of generated malformed programs and of tests/ui.",
             "§4 C12", "partial: syn / rustc are modelled"),
-    "C13": ("Theorems: accessors, reciprocal swaps and is involutive, rate*qty / qty*rate / qty/rate are the stated expressions with explicit error bounds, mutual inverse; tie: correspondence over type pairs incl. dimensionless and single-unit.",
+    "C13": ("Theorems: accessors, reciprocal swaps and is involutive, rate*qty / qty*rate / qty/rate are the stated expressions with explicit error bounds, mutual inverse; tie: correspondence over type pairs incl. dimensionless and single-unit. The rate oracles are proved never to reject the model's own output (OracleSoundC13).",
             "§4 C13", "full"),
-    "C14": ("Theorems for every table: same-unit identity, first matching row (List.find?), none without a row; for the regenerated temperature table: covers all pairs, rows match the exact formulas, inverse/compose bounds; tie: random tables and the temperature table on all 9 pairs.",
+    "C14": ("Theorems for every table: same-unit identity, first matching row (List.find?), none without a row; for the regenerated temperature table: covers all pairs, rows match the exact formulas, inverse/compose bounds; tie: random tables and the temperature table on all 9 pairs. What convert COMPUTES is mutually inverse and composes consistently within explicit bounds: conv_roundtrip_sound / conv_compose_sound for any table and arithmetic, temp_roundtrip_dec / temp_compose_dec for the regenerated table and all decimal amounts up to 1e12.",
             "§4 C14", "full"),
     "C15": ("Theorems on the model of Quantity::fmt / Unit::fmt / Rate Display and of core::fmt padding: shape, sign, round trip, width and precision; oracle on implementation strings (parse back, exact rounding, char width).",
             "§4 C15", "partial: core::fmt is modelled"),
@@ -43,7 +43,7 @@ TEXT = {
             "§4 C17", "partial: serde_derive / serde_json are modelled"),
     "C18": ("Theorems: no modelled operation returns a panic in f64; none in decimal inside the stated magnitude domain; otherwise only the documented unit-mismatch panic; tie: panic kinds of every executed op compared with the model.",
             "§4 C18", "full for modelled ops"),
-    "C19": ("Theorems on the regenerated feature graph: import-closedness of the enabled module set for ALL 2^14 feature subsets, exactly one AmountT definition per configuration; tie: cargo check of the configurations and corpus equality across them.",
+    "C19": ("Theorems on the regenerated feature graph: import-closedness of the enabled module set for ALL 2^14 feature subsets, exactly one AmountT definition per configuration; tie: cargo check of the configurations and corpus equality across them. A regenerated inventory of every conditional-compilation site: code_depends_on_fpdec_only and results_feature_independent (all pairs of feature sets selecting the same amount type compile the same code).",
             "§4 C19", "partial: cargo / rustc are modelled"),
 }
 
